@@ -3,6 +3,18 @@
 import json, subprocess
 
 CHECKS = {
+ "C04": ("property-based differential testing of type inference against a textbook unifier over generated, mutated and directed combinator DAGs, each built in several random topological orders",
+         "Exploration with a reference model (model::unify: first-order unification over rational trees with merge-before-descent and a final acyclicity check): acceptance <=> finite solution, every node's arrow equals the principal arrow with variables := unit, all construction orders agree in verdict and arrows, every error displays within 8 MiB and 2^23 iterator steps.",
+         "Trusted: model::unify and the typing rules written in its header; jets as typed leaves take their types from the crate's tables. Construction stops at the first constructor error (the context is partially updated afterwards). Known finding F6 (unbounded error display) is keyed on DAGs containing a sub-DAG whose isolated principal type has >= 2^16 tree nodes.",
+         "DESIGN.md §6 C04"),
+ "C14": ("exhaustive enumeration over all 368+471+428 jets and all 502 extern declarations; round-trip, prefix-code, name-parse and differential (C decoder, C type inference, C analyseBounds on one-jet programs) oracles; textual comparison of Rust extern blocks with C prototypes",
+         "Exhaustive over the finite sets the property quantifies over: code round trip and prefix-freeness per family, name parsing, type-name consistency, Core vs Elements namesake (types, code behind the family bit), Elements jets against the C tables (cmr, source/target type roots and widths, cost), and arity/parameter-type compatibility of every foreign function declaration with the C prototype (incl. WRAP_ expansions).",
+         "Trusted: the small declaration parser and type-compatibility table in model/c14_decls.rs (conservative: unparsed or unmapped items are counted, never reported); libsimplicity as reference. Return types are compared but only counted (the property speaks of arity and parameter types). Bitcoin jets: codes, names, type names only, as the property states.",
+         "DESIGN.md §6 C14"),
+ "C16": ("property-based testing: generated policy trees x availability subsets x lock-time environments x permutations; boolean reference model with leaf truth observed through one-leaf programs",
+         "Exploration with a reference model: cmr() == commit().cmr() == satisfied/pruned cmr; satisfy is Ok exactly when the and/or/threshold model is true under leaf truths observed by running each one-leaf program in the environment; the satisfied program and its pruned form run; sorted() is idempotent, only reorders, and is invariant under permutations of commutative children at every depth.",
+         "Trusted: the boolean model, libsecp256k1 for signatures, the Elements environment builder. Leaf truths come from executing the library's own one-leaf programs (so lock-time answers are true of the environment by construction).",
+         "DESIGN.md §6 C16"),
  "C02": ("property-based testing: raw byte strings, byte-level mutations of valid encodings and single-rule canonicity violations assembled with an independent bit-level writer; round-trip (re-encode = input) oracle with fuel and allocation meters",
          "Exploration: every input is decoded by RedeemNode::decode, CommitNode::decode and ConstructNode::decode under a DAG-step fuel limit (2^28), an allocation bound (96 MiB + 4096*len) and with overflow checks on; anything accepted must re-encode to exactly the input; each directed negative (unused node, non-canonical order, unshared duplicate, repeated hidden node, trailing byte, non-zero padding, short witness) must be rejected while its canonical twin is accepted.",
          "Trusted: model::wire (reader/writer of the bit format, cross-checked against the encoder on every valid program), the fuel hook, the counting allocator. Jet bit codes come from the crate's encode tables. The libFuzzer campaign of the thorough tier extends the raw-bytes part.",
